@@ -93,7 +93,7 @@ def native_verdict(nat, backend, st):
 
 def items_for(quick, dialects=DIALECTS):
     items = []
-    extra = {'select': [['from', 'hint', 'sample', 'distinct_on', 'lock', 'namedwin', 'w1', 'limit'], ['union', 'utype', 'ulimit', 'order', 'ordnulls', 'ordfunc'], ['window', 'frame', 'order', 'limit']], 'insert': [['cols', 'conflict', 'donothing', 'dokeys', 'cwhere', 'returning']],
+    extra = {'select': [['from', 'hint', 'sample', 'distinct_on', 'lock', 'lockkind', 'namedwin', 'w1', 'limit'], ['union', 'utype', 'ulimit', 'order', 'ordnulls', 'ordfunc'], ['window', 'frame', 'order', 'limit']], 'insert': [['cols', 'conflict', 'donothing', 'dokeys', 'cwhere', 'returning']],
              'update': [['upjoin', 'upjoin2', 'where', 'set2']], 'with': [['recursive', 'search', 'cycle', 'materialized', 'cte2']], 'delete': []}
     for fam, (gen, qgroups, tgroups) in FAMILIES.items():
         for b in dialects:
